@@ -523,6 +523,28 @@ class Discharger:
                 if src[0] == "call" and (src[1].endswith("Iterator::nth") or src[2].endswith("Iterator>::nth")):
                     cur = sym.norm(src[3][0])
                     n_expr = src[3][1]
+                    # k < number of elements left: k is derived from the cursor's own remaining slice (count of an
+                    # adaptor chain, a found position, ...) and the cursor was not advanced since that slice was taken
+                    from . import arith as _A
+                    ln = ("call", "core::slice::len", "core::slice::len", (("call", "core::slice::Iter::as_slice", "core::slice::Iter::as_slice", (cur,), -1),), -1)
+                    fresh = True
+
+                    def canon(e):
+                        nonlocal fresh
+                        if not isinstance(e, tuple) or not e or not isinstance(e[0], str):
+                            return e
+                        if e[0] == "call" and e[1].endswith("as_slice") and e[3] and sym.norm(e[3][0]) == cur:
+                            if any(advances(mir, S, b_, cur) for b_ in blocks_between(mir, e[4], src[4]) - {src[4]}):
+                                fresh = False
+                            return ("call", "core::slice::Iter::as_slice", "core::slice::Iter::as_slice", (cur,), -1)
+                        return tuple(canon(x) if isinstance(x, tuple) and x and isinstance(x[0], str) else (tuple(canon(y) for y in x) if isinstance(x, tuple) else x) for x in e)
+
+                    k2 = canon(self.expand(S, n_expr))
+                    c2 = [(canon(self.expand(S, c_)), v_, d_) for c_, v_, d_ in conds]
+                    if fresh:
+                        F = _A.build(c2, [ln, k2], lambda e: self.expand(S, e), unsigned=[k2], stable=lambda a: True)
+                        if F.proves_ge(ln, _A.untry(k2), 1):
+                            return "A: nth(k) with k < len(cursor.as_slice()) derived from the cursor's own remaining slice, cursor not advanced in between"
                     for c, v, d in conds:
                         c2 = c
                         if c2[0] == "discr" and c2[1][0] == "call" and c2[1][1].endswith("Try::branch") and v == 0:
@@ -555,8 +577,18 @@ class Discharger:
                 # ArrayVec error queue overflow path (R12.5)
                 if s.body.npath.endswith("ErrorQueue>::push_back_error") and "ArrayVec" in (s.body.impl_self or ""):
                     for c, v, _ in conds:
-                        if c[0] == "call" and c[1].split("::")[-1] == "is_err" and v is True and "try_push" in repr(c):
-                            return "R12.5: reached only when try_push failed (queue full, hence non-empty for CAP >= 1)"
+                        failed = (c[0] == "call" and c[1].split("::")[-1] == "is_err" and v is True and "try_push" in repr(c)) or \
+                                 (c[0] == "call" and c[1].split("::")[-1] == "is_ok" and v is False and "try_push" in repr(c)) or \
+                                 (c[0] == "discr" and c[1][0] == "call" and c[1][1].split("::")[-1] == "try_push" and (v == 1 or v == ("not", [0])))
+                        if failed:
+                            op = src[1].split("::")[-1] if src[0] == "call" else ""
+                            if op in ("pop", "last", "last_mut", "first", "first_mut", "pop_at"):
+                                return "R12.5: reached only when try_push failed (queue full, hence non-empty for CAP >= 1)"
+                            if op == "try_push":
+                                doms = cfg.dominators(mir)
+                                pops = [bi for bi in doms.get(src[4], ()) if mir.blocks[bi]["term"]["k"] == "call" and facts.strip_generics(mir.blocks[bi]["term"]["callee"].get("path", "")).split("::")[-1] in ("pop", "pop_at", "remove", "swap_remove")]
+                                if pops:
+                                    return "R12.5: one entry was removed from the full queue on every path here, so one slot is free"
                         if c[0] == "call" and c[1].split("::")[-1] == "is_full" and v is True and c[3] and src[0] == "call" and src[3] and sym.norm(c[3][0]) == sym.norm(src[3][0]):
                             op = src[1].split("::")[-1]
                             if op == "pop":
@@ -690,6 +722,34 @@ class Discharger:
                             return False
             return True
 
+        if s.kind == "assert":
+            # the asserted condition itself folds to the expected value (constant divisor, ...)
+            cv = _const_bool(sym.norm(S.operand(t["cond"])))
+            if cv is not None and cv == t["expected"]:
+                return "A: the checked condition is a constant (%s)" % t["msg"]
+        if s.kind == "assert" and t["msg"] in ("OverflowNeg", "BoundsCheck", "DivisionByZero", "RemainderByZero") or (s.kind == "assert" and t["msg"].startswith(("Overflow(Div", "Overflow(Rem"))):
+            ops = [N(o) for o in t["ops"]]
+            F = arith.build(conds, ops, ex, stable=stable)
+            if t["msg"] == "OverflowNeg":
+                ty = self.operand_ty(mir, t["ops"][0])
+                lo, hi = F.range(arith.untry(ops[0]))
+                rng = arith._TYRANGE.get(ty or "")
+                if rng and lo is not None and lo > rng[0]:
+                    return "A: negation of a value > %d (bounds from dominating conditions)" % rng[0]
+            if t["msg"] == "BoundsCheck" and len(ops) == 2:
+                llo, lhi = F.range(arith.untry(ops[0]))
+                ilo, ihi = F.range(arith.untry(ops[1]))
+                if llo is not None and ihi is not None and ilo is not None and ilo >= 0 and ihi < llo:
+                    return "A: index in [%d,%d] < length %d (bounds from dominating conditions)" % (ilo, ihi, llo)
+            if t["msg"] in ("DivisionByZero", "RemainderByZero") or t["msg"].startswith(("Overflow(Div", "Overflow(Rem")):
+                # the divisor is the second operand of the guarded operation: found in the asserted condition
+                c = sym.norm(S.operand(t["cond"]))
+                for x in sym.walk(c):
+                    if x[0] == "binop" and x[1] == "Eq" and x[3][0] == "int" and x[3][1] == 0:
+                        lo, hi = F.range(arith.untry(x[2]))
+                        if lo is not None and hi is not None and (lo > 0 or hi < 0):
+                            return "A: divisor in [%d,%d] is non-zero" % (lo, hi)
+            return None
         if s.kind == "assert" and t["msg"] in ("Overflow(Sub)", "Overflow(Add)"):
             a, b = [N(o) for o in t["ops"]]
             aty = self.operand_ty(mir, t["ops"][0]) or self.operand_ty(mir, t["ops"][1])
@@ -751,6 +811,12 @@ class Discharger:
             ds = S.defs_of(e[1])
             if len(ds) == 1:
                 return self.expand(S, sym.norm(ds[0]), depth + 1)
+            return e
+        if e[0] == "promoted":
+            owner = getattr(S.mir, "owner", None)
+            proms = owner.promoted if owner is not None and hasattr(owner, "promoted") else []
+            if isinstance(e[1], int) and e[1] < len(proms):
+                return sym.norm(sym.Sym(proms[e[1]]).local(0))
             return e
         out = []
         for x in e:
@@ -832,6 +898,32 @@ class Discharger:
             return False
         back = cfg.reachable(mir, mir.succs(s.bi), avoid=adv)
         return s.bi not in back
+
+
+def _const_bool(e):
+    """fold a boolean expression over integer constants; None if it is not constant"""
+    if e[0] == "bool":
+        return e[1]
+    if e[0] == "binop":
+        a, b = e[2], e[3]
+        if e[1] in ("Eq", "Ne", "Lt", "Le", "Gt", "Ge") and a[0] == "int" and b[0] == "int":
+            return {"Eq": a[1] == b[1], "Ne": a[1] != b[1], "Lt": a[1] < b[1], "Le": a[1] <= b[1], "Gt": a[1] > b[1], "Ge": a[1] >= b[1]}[e[1]]
+        if e[1] == "BitAnd":
+            x, y = _const_bool(a), _const_bool(b)
+            if x is False or y is False:
+                return False
+            if x is True and y is True:
+                return True
+        if e[1] == "BitOr":
+            x, y = _const_bool(a), _const_bool(b)
+            if x is True or y is True:
+                return True
+            if x is False and y is False:
+                return False
+    if e[0] == "unop" and e[1] == "Not":
+        x = _const_bool(e[2])
+        return None if x is None else (not x)
+    return None
 
 
 def _rename_len(e, recv, ln):
